@@ -429,7 +429,7 @@ pub fn map_entries(
         .set_property(index_key, JsValue::Number(0.0));
 
     // Add next() method
-    let next_fn = interp.create_native_function("next", map_iterator_next, 0);
+    let next_fn = interp.create_native_function_in(&guard, "next", map_iterator_next, 0);
     guard.guard(next_fn.cheap_clone());
     iter_obj
         .borrow_mut()
@@ -440,7 +440,7 @@ pub fn map_entries(
     let iterator_symbol =
         crate::value::JsSymbol::new(well_known.iterator, Some(interp.intern("Symbol.iterator")));
     let iterator_key = crate::value::PropertyKey::Symbol(Box::new(iterator_symbol));
-    let self_iterator_fn = interp.create_native_function("[Symbol.iterator]", map_iterator_self, 0);
+    let self_iterator_fn = interp.create_native_function_in(&guard, "[Symbol.iterator]", map_iterator_self, 0);
     guard.guard(self_iterator_fn.cheap_clone());
     iter_obj
         .borrow_mut()
